@@ -618,6 +618,11 @@ type evalError struct{ msg string }
 func (e *evalError) Error() string { return e.msg }
 
 func evalFail(format string, a ...interface{}) {
+	for i, x := range a {
+		if s, ok := x.(string); ok && len(s) > 200 {
+			a[i] = s[:200] + "…"
+		}
+	}
 	panic(&execError{"contract", fmt.Sprintf(format, a...)})
 }
 
@@ -647,10 +652,29 @@ func (ex *Exec) frameEnv(st *State, fr *Frame) *Env {
 			env.bind(p.Name(), fr.regs[p], p.Type())
 		}
 	}
+	// captured variables of closures, by source name
+	for i, fv := range fn.FreeVars {
+		if i < len(fr.bind) {
+			if _, ok := env.vars[fv.Name()]; !ok {
+				bindFreeVar(env, st, fv, fr.bind[i])
+			}
+		}
+	}
 	if ex.entry != nil && fr.depth == 0 {
 		env.old = &State{heap: ex.entry.Heap, globals: ex.entry.Globals}
 	}
 	return env
+}
+
+// bindFreeVar: go/ssa captures variables by reference; contracts name the variable, i.e. its current value.
+func bindFreeVar(env *Env, st *State, fv *ssa.FreeVar, v Value) {
+	if pt, ok := fv.Type().Underlying().(*types.Pointer); ok {
+		if p, ok2 := v.(VPtr); ok2 && (p.Obj > 0 || p.Global != nil) {
+			env.bind(fv.Name(), st.loadPtr(p), pt.Elem())
+			return
+		}
+	}
+	env.bind(fv.Name(), v, fv.Type())
 }
 
 func (ex *Exec) evalBoolClause(st *State, env *Env, c *Clause) *Term {
@@ -872,6 +896,15 @@ func (e *Env) binary(n *ast.BinaryExpr) tv {
 			ev = &c
 		}
 		a := ev.eval(n.X)
+		// short circuit on a syntactically decided left operand (the right one may not be evaluable then)
+		if ab, ok := a.v.(VBool); ok {
+			if n.Op == token.LAND && ab.T.IsFalse() {
+				return tv{VBool{False}, types.Typ[types.Bool]}
+			}
+			if n.Op == token.LOR && ab.T.IsTrue() {
+				return tv{VBool{True}, types.Typ[types.Bool]}
+			}
+		}
 		b := ev.eval(n.Y)
 		at, ok1 := a.v.(VBool)
 		bt, ok2 := b.v.(VBool)
@@ -1135,6 +1168,9 @@ func (e *Env) callExpr(n *ast.CallExpr) tv {
 			return o.eval(n.Args[0])
 		case "imp":
 			a := e.boolArg(n.Args[0])
+			if a.IsFalse() {
+				return tv{VBool{True}, types.Typ[types.Bool]}
+			}
 			if e.assuming {
 				sub := *e
 				sub.guard = And(e.guard, a)
@@ -1203,6 +1239,17 @@ func (e *Env) callExpr(n *ast.CallExpr) tv {
 				return tv{VBool{False}, types.Typ[types.Bool]}
 			}
 			return tv{VBool{And(Not(nilT(iv.Nil)), App("typeis:"+typeStr(t), BoolSort, iv.ID))}, types.Typ[types.Bool]}
+		case "upper":
+			a := e.eval(n.Args[0])
+			sv, ok := a.v.(VStr)
+			if !ok {
+				evalFail("upper of non-string in %q", e.in)
+			}
+			if sv.Lit != nil {
+				u := strings.ToUpper(*sv.Lit)
+				return tv{VStr{Lit: &u}, types.Typ[types.String]}
+			}
+			return tv{VStr{ID: App("strings.ToUpper", BV(64), sv.ID)}, types.Typ[types.String]}
 		case "pad8":
 			a := e.intArg(n.Args[0])
 			return tv{VInt{Mul(UDiv(Add(a, Const(64, 7)), Const(64, 8)), Const(64, 8))}, types.Typ[types.Int]}
@@ -1494,6 +1541,17 @@ func (e *Env) evalLoc(x ast.Expr) (VPtr, types.Type) {
 		}
 		return p, a.t.Underlying().(*types.Pointer).Elem()
 	case *ast.Ident:
+		if _, bound := e.vars[n.Name]; !bound && e.pkg != nil {
+			if o, ok := e.pkg.Scope().Lookup(n.Name).(*types.Var); ok {
+				for _, sp := range e.ex.L.Prog.AllPackages() {
+					if sp.Pkg == o.Pkg() {
+						if g, ok := sp.Members[o.Name()].(*ssa.Global); ok {
+							return VPtr{Global: g}, o.Type()
+						}
+					}
+				}
+			}
+		}
 		a := e.eval(n)
 		switch p := a.v.(type) {
 		case VPtr:
